@@ -69,6 +69,33 @@ func (f *Frame) evalC(e *CExpr, env *Env) *Val {
 		for k, v := range env.Bound {
 			nenv.Bound[k] = v
 		}
+		if e.Op == "table" {
+			// table r T :: P(r)  is the array t with t[r] == P(r) for every r (a definitional
+			// axiom); identical bodies share one array, so that a predicate over the entry
+			// state is one table throughout the function
+			if len(e.Vars) != 1 {
+				f.E.fail("table takes one bound variable")
+			}
+			name := "r!tbl"
+			val, g := f.boundVar(name, e.Vars[0].Type)
+			nenv.Bound[e.Vars[0].Name] = val
+			body := f.evalBool(e.A, &nenv)
+			if g != nil {
+				body = And(g, body)
+			}
+			key := body.String()
+			if f.E.tables == nil {
+				f.E.tables = map[string]*Term{}
+			}
+			t, ok := f.E.tables[key]
+			if !ok {
+				t = f.E.declare(fmt.Sprintf("tbl!%d", len(f.E.tables)+1), ArrayS(val.X.S, BoolS))
+				f.E.tables[key] = t
+				b := Bound{Name: name, S: val.X.S}
+				f.E.addFact(True, Forall([]Bound{b}, Eq(Select(t, Var(name, val.X.S)), body)), "table definition")
+			}
+			return &Val{K: VScalar, X: t}
+		}
 		var bs []Bound
 		var guards []*Term
 		for _, v := range e.Vars {
@@ -918,6 +945,27 @@ func (f *Frame) evalCall(e *CExpr, env *Env) *Val {
 		}
 		if len(cs) == 0 {
 			f.E.fail("inv(): no invariant selected by %s", e)
+		}
+		return boolVal(And(cs...))
+	case "framed":
+		// framed(s): every backing array with s's element type that was allocated at
+		// entry, other than s's own, still has its entry contents (a loop-level frame)
+		sv := arg(0)
+		if sv.K != VSlice {
+			f.E.fail("framed() needs a slice")
+		}
+		key, ls := f.elemLeaves(sv.T)
+		alloc0 := entryVar(allocKey, allocSort)
+		ob := Bound{Name: fmt.Sprintf("o!fr%d", f.E.nextQ()), S: IntS}
+		ov := Var(ob.Name, IntS)
+		var cs []*Term
+		for _, l := range ls {
+			srt := ArrayS(IntS, ArrayS(IntS, l.sort))
+			cur := env.State.Get(key+l.path, srt)
+			old := entryVar(key+l.path, srt)
+			f.E.noteVars(cur)
+			f.E.noteVars(old)
+			cs = append(cs, Forall([]Bound{ob}, Implies(And(allocatedIn(alloc0, ov), Neq(ov, sv.Base)), Eq(Select(cur, ov), Select(old, ov)))))
 		}
 		return boolVal(And(cs...))
 	case "unchanged":
